@@ -199,14 +199,15 @@ func guarded(f func() Sx) (out Sx) {
 }
 
 type walkInfo struct {
-	visited  int // callbacks the underlying FS made
+	visited  map[string]bool // paths the underlying FS reported to the filter
 	reported []string
 }
 
 func realFilterWalk(view []*MNode, inc, exc []string, mt Sx, wi *walkInfo) Sx {
 	m := &MemFS{Roots: view}
 	if wi != nil {
-		m.WalkHook = func(idx int, p string) error { wi.visited++; return nil }
+		wi.visited = map[string]bool{}
+		m.WalkHook = func(idx int, p string) error { wi.visited[p] = true; return nil }
 	}
 	f, err := fsutil.NewFilterFS(m, &fsutil.FilterOpt{IncludePatterns: inc, ExcludePatterns: exc, Map: mapFromTable(mt)})
 	if err != nil {
@@ -360,6 +361,48 @@ func run1004(in Sx) Sx {
 var c10Names = []string{"a", "b", "ab", "c", "d", "x", "y", "a.b", "a b", "é", "b+", "ba", "a-b", "(a)", "a$"}
 var c10UnsafeNames = []string{"a{2}", "aa", "a|b", "xb", "\x80", "\x81", "{a}"}
 
+// bushy, deep views over few names: every shortcut and the lazy emission of parents have
+// something to do
+func c10DeepView(r *Rng, names []string) []*MNode {
+	budget := 5 + r.Intn(12)
+	var build func(depth int) []*MNode
+	build = func(depth int) []*MNode {
+		var kids []*MNode
+		n := 1 + r.Intn(3)
+		used := map[string]bool{}
+		for i := 0; i < n && budget > 0; i++ {
+			name := Pick(r, names)
+			if used[name] {
+				continue
+			}
+			used[name] = true
+			budget--
+			st := &types.Stat{Mode: uint32(Pick(r, []int{0644, 0600, 0755})), Uid: uint32(Pick(r, []int{0, 1000})), Gid: uint32(Pick(r, []int{0, 5})),
+				ModTime: int64(1600000000+r.Intn(1000))*1e9 + int64(r.Intn(1e9))}
+			node := &MNode{Name: name, Stat: st}
+			pdir := 65
+			if depth >= 2 {
+				pdir = 40
+			}
+			if depth < 4 && r.Chance(pdir) {
+				st.Mode = uint32(os.ModeDir | 0755)
+				node.Kids = build(depth + 1)
+			} else {
+				node.Content = fillContent(r, Pick(r, sizesSmall))
+				st.Size = int64(len(node.Content))
+				if r.Chance(10) {
+					st.Xattrs = map[string][]byte{"user.k": {1}}
+				}
+			}
+			kids = append(kids, node)
+		}
+		return kids
+	}
+	root := &MNode{Name: "", Stat: &types.Stat{Mode: uint32(os.ModeDir | 0755)}, Kids: build(0)}
+	sortKids(root)
+	return root.Kids
+}
+
 func validPattern(p string) bool {
 	_, err := patternmatcher.New([]string{p})
 	return err == nil
@@ -368,6 +411,36 @@ func validPattern(p string) bool {
 func splitPath(p string) []string { return strings.Split(p, "/") }
 
 // one pattern from the grammar, aimed at the paths of the view; returns the pattern and its class
+// prefix-only pattern (literal, L/*, L/**) aimed at the paths of the view: keeps both SkipDir
+// shortcuts armed
+func genPrefixPattern(r *Rng, paths []string) (string, string) {
+	base := "a"
+	if len(paths) > 0 && r.Chance(92) {
+		base = Pick(r, paths)
+	} else {
+		base = Pick(r, []string{"a", "a/b", "zz", "a/zz", "b/c/d", "ab"})
+	}
+	switch r.Intn(8) {
+	case 0, 1, 2:
+		return base, "literal"
+	case 3:
+		return base + "/*", "lit/*"
+	case 4:
+		return base + "/**", "lit/**"
+	case 5:
+		if d := filepath.Dir(base); d != "." {
+			return d + "/*", "parent/*"
+		}
+		return base, "literal"
+	case 6:
+		if r.Bool() || len(base) < 2 {
+			return base + Pick(r, []string{"b", "a", "x"}), "sibling-confusion"
+		}
+		return base[:len(base)-1], "sibling-confusion"
+	}
+	return splitPath(base)[0], "top-literal"
+}
+
 func genPattern(r *Rng, paths []string) (string, string) {
 	for {
 		base := "a"
@@ -458,9 +531,42 @@ func genPattern(r *Rng, paths []string) (string, string) {
 	}
 }
 
-func genPatternList(r *Rng, paths []string, view []*MNode, classes map[string]int) []string {
-	if r.Chance(25) {
+// mode: 0 = any pattern; 1 = inclusions prefix-only (exclusions any); 2 = exclusions prefix-only
+// (inclusions any).  Mode 1 on the include side / mode 2 on the exclude side arm the shortcuts.
+func genPatternList(r *Rng, paths []string, view []*MNode, classes map[string]int, mode int) []string {
+	if r.Chance(25) && mode == 0 {
 		return nil
+	}
+	if mode != 0 {
+		n := 1 + r.Intn(4)
+		var out []string
+		for i := 0; i < n; i++ {
+			neg := r.Chance(30)
+			if mode == 2 && i == 0 {
+				neg = false // something must be excluded for the exclude shortcut to matter
+			}
+			var p, c string
+			if (mode == 1 && !neg) || (mode == 2 && neg) || r.Chance(60) {
+				p, c = genPrefixPattern(r, paths)
+			} else {
+				for {
+					p, c = genPattern(r, paths)
+					if !strings.HasPrefix(p, "!") {
+						break
+					}
+				}
+			}
+			if neg {
+				p, c = "!"+p, "!"+c
+			}
+			if !validPattern(p) {
+				i--
+				continue
+			}
+			classes[c]++
+			out = append(out, p)
+		}
+		return out
 	}
 	// K1 shape: [d, !d/c, d]
 	if r.Chance(8) {
@@ -523,14 +629,38 @@ func emit1001(g *Gen, view []*MNode, inc, exc []string, mt Sx, tag string) {
 	restore := quietStderr()
 	out := guarded(func() Sx { return realFilterWalk(view, inc, exc, mt, wi) })
 	restore()
-	total := len(viewPaths(view))
-	hasSkipDir := false
+	// a directory was pruned by a shortcut: it was visited, its first child was not, and the map
+	// table answers SkipDir neither for it nor for an ancestor (the only other ways a directory's
+	// callback returns SkipDir)
+	skipDirAt := map[string]bool{}
 	for _, e := range mt.L {
 		if e.L[1].Int() == 2 {
-			hasSkipDir = true
+			skipDirAt[e.L[0].Str()] = true
 		}
 	}
-	pruned := wi.visited < total && !hasSkipDir
+	pruned := false
+	var scan func(dir string, kids []*MNode)
+	scan = func(dir string, kids []*MNode) {
+		for _, k := range kids {
+			p := k.Name
+			if dir != "" {
+				p = dir + "/" + k.Name
+			}
+			if k.IsDir() && len(k.Kids) > 0 && wi.visited[p] && !wi.visited[p+"/"+k.Kids[0].Name] {
+				blocked := false
+				for _, pre := range relPrefixes(p) {
+					if skipDirAt[pre] {
+						blocked = true
+					}
+				}
+				if !blocked {
+					pruned = true
+				}
+			}
+			scan(p, k.Kids)
+		}
+	}
+	scan("", view)
 	// lazily reported directory: reported although the patterns (naive reading) do not select it
 	lazy := false
 	if len(out.L) == 5 {
@@ -589,19 +719,46 @@ func genC10(g *Gen) {
 	for i := 0; i < nWalk; i++ {
 		names := c10Names
 		tag := "walk"
-		if i%40 == 39 {
+		unsafeNames := i%40 == 39
+		if unsafeNames {
 			names = append(append([]string{}, c10Names[:6]...), c10UnsafeNames...)
-			tag = "walk-unsafe-names"
 		}
-		view := GenView(r, TreeOpts{MaxEntries: 4 + r.Intn(9), MaxDepth: 3, Names: names, Types: r.Chance(30), Xattrs: r.Chance(20), Owners: true})
+		if i%3 == 0 { // few names: deep chains, many hits
+			names = []string{"a", "b", "ab", "c", "a.b"}
+		}
+		var view []*MNode
+		if i%4 == 3 && !unsafeNames {
+			view = GenView(r, TreeOpts{MaxEntries: 4 + r.Intn(11), MaxDepth: 4, Names: names, Types: r.Chance(30), Xattrs: r.Chance(20), Owners: true})
+		} else {
+			view = c10DeepView(r, names)
+		}
 		paths := viewPaths(view)
 		isDir := map[string]bool{}
 		for _, st := range WalkEntries(view) {
 			isDir[st.Path] = os.FileMode(st.Mode).IsDir()
 		}
-		inc := genPatternList(r, paths, view, classes)
-		exc := genPatternList(r, paths, view, classes)
+		var inc, exc []string
+		switch i % 4 {
+		case 0: // include shortcut armed
+			inc = genPatternList(r, paths, view, classes, 1)
+			if r.Chance(40) {
+				exc = genPatternList(r, paths, view, classes, 2)
+			}
+			tag = "armed-inc"
+		case 1: // exclude shortcut armed
+			exc = genPatternList(r, paths, view, classes, 2)
+			if r.Chance(40) {
+				inc = genPatternList(r, paths, view, classes, 1)
+			}
+			tag = "armed-exc"
+		default:
+			inc = genPatternList(r, paths, view, classes, 0)
+			exc = genPatternList(r, paths, view, classes, 0)
+		}
 		mt := genMapTable(r, paths, isDir)
+		if unsafeNames {
+			tag += "-unsafe-names"
+		}
 		emit1001(g, view, inc, exc, mt, tag)
 
 		// list evaluation on one path of this view (and sometimes a path outside it)
